@@ -66,6 +66,8 @@ func main() {
 	if d := os.Getenv("VERIF_REPO"); d != "" {
 		repoDir = d
 	}
+	os.MkdirAll(filepath.Join(verifDir, "out"), 0o755)
+	os.MkdirAll(filepath.Join(verifDir, "evidence"), 0o755)
 	switch os.Args[1] {
 	case "check":
 		os.Exit(cmdCheck(os.Args[2:]))
